@@ -489,7 +489,7 @@ pub fn run(ctx: &mut Ctx) {
         return;
     }
     let (ncrates, per) = if ctx.tier == Tier::Quick { (8usize, 25usize) } else { (8, 60) };
-    let rounds = ctx.tier.pick(1usize, 5usize);
+    let rounds = ctx.tier.pick(1usize, 24usize);
     for round in 0..rounds {
         let seed = mix_seed(ctx.seed, "c07", round as u64);
         let roots = sample_strategy(&arb_root(2, "R"), seed, ncrates * per);
